@@ -16,6 +16,17 @@ Theorem C03_journal_no_panic : forall st kk op self mem stack t, is_panic (snd (
 Proof. exact jop_no_panic. Qed.
 Print Assumptions C03_journal_no_panic.
 
+(** in particular the Go slice expression `stateBytes[:length]` of the reference journal is in range for every storage
+    word: the number of data slots read is the true ceiling of length/32 for every uint64 length — the quotient-plus-
+    remainder form cannot wrap around (finding F17: the earlier `(length+31)/32` on uint64 did, Findings/PreFix_Ceil.v) *)
+Theorem C03_reference_journal_slice_in_range : forall st kk slot,
+  (is_panic (vr_read st kk slot) = false) /\
+  (forall len, u64_ceiling32 len = (len + 31) / 32 /\ len <= 32 * u64_ceiling32 len).
+Proof.
+  intros st kk slot. split; [apply vr_no_panic|]. intro len. rewrite u64_ceiling32_is_ceil32. split; [reflexivity|apply ceil32_covers].
+Qed.
+Print Assumptions C03_reference_journal_slice_in_range.
+
 (** every call kind, caller, payload and gas value to the Artela precompiles returns normally or with an error *)
 Theorem C03_precompiles_no_panic : forall host k caller addr input gas,
   blen input < two63 -> (forall c, is_panic (host c) = false) ->
